@@ -146,6 +146,9 @@ Proof.
   - exact exs_p1_nz.
 Qed.
 
+Lemma exs_hist_le3 : forall r, (r < 2)%nat -> (length (fhist (A := AFlx) 2 1 exs_al exs_index 2 r) <= 3)%nat.
+Proof. intros [|[|r]] Hr; try lia; cbn; lia. Qed.
+
 (* ---------------------------------------------------------------- exact rationals: how long a history can get *)
 Local Close Scope R_scope.
 Local Open Scope nat_scope.
